@@ -27,8 +27,8 @@ ID = 'C05'
 N = {'quick': 700, 'thorough': 16000}
 LEAN_MODULES = ['GnpyProofs.Props.C05']
 THEOREMS = [f'Gnpy.Fiber.{t}' for t in (
-    'exp_alpha_is_db', 'lumped_once', 'propagateP_eq', 'loss_budget', 'span_loss_budget', 'same_position_dropped',
-    'lumped_same_position_fails_current', 'cd_additive', 'latency_additive', 'quadrature_fold', 'quadrature_perm',
+    'exp_alpha_is_db', 'lumped_once', 'createLumped_sorted', 'propagateP_eq', 'loss_budget', 'span_loss_budget',
+    'lumped_same_position_failed_before_fix', 'cd_additive', 'latency_additive', 'quadrature_fold', 'quadrature_perm',
     'pmd_quadrature', 'pdl_quadrature', 'path_order_irrelevant', 'fibre_pmd_sq', 'fibre_pdl_unchanged', 'latency_formula',
     'cd_at_ref')]
 RULE = ('cases from one PRNG: (a) one span: random fibre (0.1-300 km in km or m, scalar or per-frequency loss, 0-3 lumped '
@@ -81,7 +81,7 @@ def gen_span(rng, tier, widen):
     case = {'kind': 'span', 'fibre': fib, 'comb': comb, 'init': _init(rng, n, zero=rng.random() < 0.2),
             'init2': _init(rng, n)}
     if rng.random() < 0.06:
-        # two lumped losses at one position (see known_findings / corpus: lumped-same-position)
+        # two lumped losses at one position (finding F12, fixed by 74081ba1; corpus/C05/lumped_same_position.json)
         lkm = FB.length_m(fib) * 1e-3
         z = round(rng.uniform(0.1, 0.9) * lkm, 4)
         fib['lumped_losses'] = [{'position': z, 'loss': rng.choice([0.5, 1.0, 2.0])},
@@ -147,7 +147,36 @@ def gen_malformed(rng, tier):
 
 
 def gen_raman(rng, tier, widen):
-    return gen_span(rng, tier, widen)
+    """Raman on: wide sparse comb (so that the inter-channel transfer is visible), optional counter-propagating pumps
+    above the signal band (as in raman_edfa_example_network.json), random solver settings"""
+    n = rng.randint(2, 8 if tier == 'quick' else 16)
+    lo = rng.choice([186.0e12, 188.0e12, 191.3e12])
+    hi = rng.choice([196.0e12, 197.0e12, 193.0e12])
+    slots = sorted(rng.sample(range(int((hi - lo) / 100e9)), n))
+    comb = {'style': 'raman', 'f': [lo + 50e9 + k * 100e9 for k in slots], 'b': [rng.choice([32e9, 64e9])] * n,
+            'slot': [100e9] * n, 'p_dbm': [round(rng.uniform(-3, 7), 2) for _ in range(n)]}
+    fib = FB.gen_fibre(rng, 185e12, 208e12, lumped=False)
+    fib['length'] = round(rng.choice([rng.uniform(3, 40), rng.uniform(20, 100), 80.0]), 3)
+    fib['length_units'] = 'km'
+    pumps = []
+    if rng.random() < 0.5:
+        for _ in range(rng.randint(1, 2)):
+            pumps.append({'power': round(rng.uniform(0.05, 0.3), 4), 'frequency': rng.choice([201e12, 203e12, 205e12, 206e12]),
+                          'propagation_direction': 'counterprop'})
+        if len(pumps) == 2 and pumps[0]['frequency'] == pumps[1]['frequency']:
+            pumps.pop()
+        fib['length'] = min(fib['length'], 60.0)
+    if rng.random() < 0.6:
+        k = rng.randint(1, 2)
+        fib['lumped_losses'] = [{'position': round(rng.uniform(0.05, 0.95) * fib['length'], 3),
+                                 'loss': rng.choice([0.5, 1.0, 2.0, round(rng.uniform(0.1, 3), 2)])} for _ in range(k)]
+        if k == 2 and fib['lumped_losses'][0]['position'] == fib['lumped_losses'][1]['position']:
+            fib['lumped_losses'].pop()
+    method = rng.choice(['perturbative', 'perturbative', 'numerical'])
+    res = rng.choice([100, 200, 500] if pumps else [50, 100, 200, 500, 1000])
+    return {'kind': 'raman', 'fibre': fib, 'comb': comb, 'pumps': pumps, 'method': method,
+            'order': rng.choice([1, 2, 2, 3, 4]), 'solver_res': res, 'result_res': rng.choice([1e3, 5e3, 10e3]),
+            'temperature': 283, 'init': _init(rng, n, zero=True)}
 
 
 # ---------------------------------------------------------------------------------------------------------------------
@@ -210,6 +239,8 @@ def _dup_positions(p):
 # ---------------------------------------------------------------------------------------------------------------------
 
 def run(case, drv):
+    if case['kind'] == 'raman':
+        return run_raman(case, drv)
     with FB.sim_params(SIM_OFF):
         return {'span': run_span, 'path': run_path, 'malformed': run_span}[case['kind']](case, drv)
 
@@ -257,7 +288,7 @@ def run_span(case, drv):
         if abs(got - want) > 1e-9:
             res.fail(f'loss budget: channel {i} at {freq[i]:.0f} Hz is attenuated by {got:.9f} dB, padding + connectors + '
                      f'length x loss coefficient + lumped losses = {want:.9f} dB',
-                     cls='lumped-same-position' if dup else 'unlisted', channel=i)
+                     channel=i)
             break
     # ---- monitor: CD and latency increments do not depend on what was accumulated before; PMD in quadrature with
     # pmd_coef * sqrt(length); PDL untouched by a fibre
@@ -444,6 +475,167 @@ def run_path(case, drv):
                       'path_roadms': kinds.count('roadm'), 'path_edfas': kinds.count('edfa'),
                       'path_identical_spans': int(len(set(json_key(e) for e in els)) == 1),
                       'path_reordered': int(order2 != order1)})
+    return res
+
+
+# ---- Raman on ---------------------------------------------------------------------------------------------------------
+
+NEPER_DB = 10 / math.log(10)     # 4.3429...
+
+
+def _raman_sim(case, method=None, order=None):
+    return {'raman_params': {'flag': True, 'method': method or case['method'], 'order': order or case['order'],
+                             'solver_spatial_resolution': case['solver_res'],
+                             'result_spatial_resolution': case['result_res']},
+            'nli_params': {'method': 'gn_model_analytic'}}
+
+
+def _raman_fiber(case, p=None, pumps=None):
+    from gnpy.core.elements import RamanFiber
+    p = case['fibre'] if p is None else p
+    pumps = case['pumps'] if pumps is None else pumps
+    if not case['pumps']:
+        return FB.mk_fiber(p)          # plain Fiber, Raman flag on: the inter-channel transfer only
+    return FB.mk_fiber(p, cls=RamanFiber, operational={'temperature': case['temperature'], 'raman_pumps': pumps})
+
+
+def _solver_loss(case, fiber, pw, method=None, order=None):
+    """dB loss of every signal between fibre input and fibre end as the Raman solver computes it"""
+    from gnpy.core.science_utils import RamanSolver
+    si = _si(case['comb'], case['init'], pw=pw)
+    with FB.sim_params(_raman_sim(case, method, order)):
+        srs = RamanSolver.calculate_stimulated_raman_scattering(si, fiber)
+    n = len(pw)
+    return [-10 * math.log10(x) for x in srs.loss_profile[:n, -1]]
+
+
+def run_raman(case, drv):
+    from gnpy.core.science_utils import RamanSolver
+    res = Result()
+    p, comb, pumps = case['fibre'], case['comb'], case['pumps']
+    n = len(comb['f'])
+    freq = sorted(comb['f'])
+    pw = [10 ** (x / 10) * 1e-3 for x in comb['p_dbm']]
+    L = FB.length_m(p)
+    fiber = _raman_fiber(case)
+    att_in = p['con_in'] + p.get('att_in', 0)
+    p1 = [x / 10 ** (att_in / 10) for x in pw]       # powers entering the glass
+    # the solver's own inputs, built by the real objects
+    allf = np.array(freq + [q['frequency'] for q in pumps])
+    allp = np.array(p1 + [q['power'] / 10 ** (p['con_out'] / 10) for q in pumps])
+    alpha = np.atleast_1d(fiber.alpha(allf)) * np.ones(len(allf))
+    cr = np.asarray(fiber.cr(allf)).reshape(len(allf), len(allf))
+    z = np.append(np.arange(0, L, case['solver_res']), L)
+    z2, ll = RamanSolver._create_lumped_losses(z, fiber.lumped_losses, fiber.z_lumped_losses)
+    grid = [[f2b(a), f2b(b)] for a, b in zip(z2, ll)]
+
+    # ---- correspondence 1: the unidirectional solver, both methods, whole power profile, signals (+ pump frequencies
+    # treated as co-propagating waves: the solver does not care)
+    nu = n if len(z2) * len(allf) ** 2 > 4e5 else len(allf)
+    for method, order in ((case['method'], case['order']),
+                          ('numerical', 1) if case['method'] == 'perturbative' else ('perturbative', case['order'])):
+        with FB.sim_params(_raman_sim(case, method, order)):
+            impl = RamanSolver.calculate_unidirectional_stimulated_raman_scattering(allp[:nu].copy(), alpha[:nu],
+                                                                                    cr[:nu, :nu], z2, ll)
+        ans = drv.ask('c05.raman_uni', method=method, order=order, alpha=fl(alpha[:nu]),
+                      cr=[fl(r) for r in cr[:nu, :nu]], pin=fl(allp[:nu]), grid=grid)
+        model = [[b2f(x) for x in row] for row in ans['power']]
+        name = f'RamanSolver.unidirectional[{method}' + (f',order {order}]' if method == 'perturbative' else ']')
+        if len(model) != impl.shape[0] or any(len(r) != impl.shape[1] for r in model):
+            res.mismatch(name + '.shape', list(impl.shape), [len(model), len(model[0]) if model else 0])
+        else:
+            res.cmp_floats(name, impl.ravel(), [x for r in model for x in r], abs_=0.0)
+    # ---- correspondence 2: Fiber.__call__ with the Raman flag on (no pumps): output power per channel
+    if not pumps:
+        with FB.sim_params(_raman_sim(case)):
+            out = _raman_fiber(case)(_si(comb, case['init']))
+        ans = drv.ask('c05.raman_fiber', method=case['method'], order=case['order'], cr=[fl(r) for r in cr[:n, :n]],
+                      z=fl(z), f=fl(freq), p=fl(pw), **_span_json(p))
+        if 'error' in ans:
+            res.mismatch('Fiber.__call__[raman]', 'ok', ans['error'])
+        else:
+            res.cmp_floats('Fiber.__call__[raman].pch', out.pch, [b2f(x) for x in ans['pch']], abs_=0.0)
+
+    # ---- monitor ------------------------------------------------------------------------------------------------------
+    # quantities the tolerances are made of (all from the case and the fibre coefficients):
+    #   a_max          largest attenuation coefficient [1/m]
+    #   S2             sum of the squared solver steps
+    #   Y, Yp, X       Raman gain rate at launch [1/m], with growth allowance exp(Y Leff), and the exponent bound Yp Leff
+    #   euler(g)       explicit Euler: 0 <= -ln(1 - x) - x <= x^2 for 0 <= x <= 1/2 (theorem euler_step_bounds), so the
+    #                  computed log-loss exceeds the exact one by at most sum (g dz)^2 Neper
+    a_max = float(np.max(alpha))
+    leff = min(L, 1 / float(np.min(alpha)))
+    dzs = np.diff(z2)
+    S2 = float(np.sum(dzs ** 2))
+    budget = [L * 1e-3 * FB.loss_db_per_km(p, f) + sum(x['loss'] for x in p.get('lumped_losses', [])) for f in freq]
+    euler_used = bool(pumps)           # co + counter waves: iterative_algorithm (explicit Euler) whatever the method
+
+    def bounds(powers):
+        y = float(np.max(np.abs(cr) @ np.asarray(powers)))
+        yp = y * math.exp(y * leff)
+        return yp, yp * leff
+
+    # the monitor drives the solver directly with the case's powers as the powers in the glass
+    monp = np.array(pw + [q['power'] / 10 ** (p['con_out'] / 10) for q in pumps])
+    loss_main = _solver_loss(case, fiber, pw)
+    effect = max(abs(a - b) for a, b in zip(loss_main, budget))
+    # R1: low-power limit -> the loss budget of the glass (length x loss coefficient + lumped losses)
+    sc = 1e-7
+    low_pumps = [dict(q, power=q['power'] * sc) for q in pumps]
+    yp_low, x_low = bounds(monp * sc)
+    for method in ('perturbative', 'numerical'):
+        low = _solver_loss(case, _raman_fiber(case, pumps=low_pumps), [x * sc for x in pw], method=method)
+        tol = NEPER_DB * 2 * x_low + 1e-9
+        if method == 'numerical' or euler_used:
+            tol += NEPER_DB * (a_max + yp_low) ** 2 * S2
+        for i in range(n):
+            if abs(low[i] - budget[i]) > tol:
+                res.fail(f'low-power limit: {method}: at {10 * math.log10(pw[i] * sc * 1e3):.1f} dBm channel {i} loses '
+                         f'{low[i]:.9f} dB, length x loss coefficient + lumped losses = {budget[i]:.9f} dB (tolerance '
+                         f'{tol:.3g} dB)', channel=i)
+                break
+    # R2: perturbative and numerical agree
+    yp, x = bounds(monp)
+    for order in sorted({1, case['order']}):
+        lp = _solver_loss(case, fiber, pw, method='perturbative', order=order)
+        ln = _solver_loss(case, fiber, pw, method='numerical')
+        if euler_used:
+            # both run iterative_algorithm, which stops at a relative accuracy 1e-3 of d ln P / dz
+            tol = NEPER_DB * 1e-3 * (a_max * L + max(abs(v) for v in ln) / NEPER_DB) + 1e-9
+        else:
+            tol = NEPER_DB * ((a_max + yp) ** 2 * S2 * (1 + x) + x ** (order + 1)) + 1e-9
+        d = max(abs(a - b) for a, b in zip(lp, ln))
+        if d > tol:
+            res.fail(f'methods agree: perturbative(order {order}) and numerical differ by {d:.6f} dB at '
+                     f'{case["solver_res"]} m steps (tolerance {tol:.3g} dB)')
+            break
+    # R3: each lumped loss is counted once (low power: removing one loss changes every channel by exactly its dB)
+    for k, lum in enumerate(p.get('lumped_losses', [])):
+        q = copy.deepcopy(p)
+        del q['lumped_losses'][k]
+        for method in ('perturbative', 'numerical'):
+            with_ = _solver_loss(case, _raman_fiber(case, pumps=low_pumps), [x * sc for x in pw], method=method)
+            without = _solver_loss(case, _raman_fiber(case, p=q, pumps=low_pumps), [x * sc for x in pw], method=method)
+            tol = NEPER_DB * 4 * x_low + 1e-9
+            if method == 'numerical' or euler_used:
+                tol += NEPER_DB * (a_max * float(np.max(dzs))) ** 2
+            for i in range(n):
+                if abs((with_[i] - without[i]) - lum['loss']) > tol:
+                    res.fail(f'lumped once: {method}: the {lum["loss"]} dB lumped loss at {lum["position"]} km changes the '
+                             f'loss of channel {i} by {with_[i] - without[i]:.9f} dB (tolerance {tol:.3g} dB)', channel=i)
+                    break
+    # R4: counter-propagating pumps (above the signal band) only add gain
+    if pumps:
+        off = _solver_loss(case, _raman_fiber(case, pumps=low_pumps), pw)
+        for i in range(n):
+            if loss_main[i] > off[i] + 1e-6:
+                res.fail(f'pumps only add gain: with the counter-propagating pumps on channel {i} loses {loss_main[i]:.6f} dB, '
+                         f'with the pumps off {off[i]:.6f} dB', channel=i)
+                break
+    res.nontrivial = effect > 1e-4
+    res.stats.update({'kind_raman': 1, f'raman_{case["method"]}': 1, f'raman_pumps_{len(pumps)}': 1,
+                      f'raman_lumped_{len(p.get("lumped_losses", []))}': 1,
+                      'raman_effect_above_0.1dB': int(effect > 0.1), 'raman_effect_above_1dB': int(effect > 1.0)})
     return res
 
 
